@@ -59,7 +59,9 @@ func cmdPlant(args []string) {
 	pick(func(o *corpus.Obj) bool {
 		return !o.Cert.IsCA && len(o.Cert.DNSNames) > 0 && len(o.Cert.PolicyIdentifiers) > 0 && len(o.Cert.EmailAddresses) == 0 && o.Cert.Subject.CommonName != ""
 	})
-	pick(func(o *corpus.Obj) bool { return !o.Cert.IsCA && len(o.Cert.EmailAddresses) > 0 && strings.HasPrefix(o.ID, "smime/") })
+	pick(func(o *corpus.Obj) bool {
+		return !o.Cert.IsCA && len(o.Cert.EmailAddresses) > 0 && strings.HasPrefix(o.ID, "smime/")
+	})
 	pick(func(o *corpus.Obj) bool { return o.Cert.IsCA && len(o.Cert.DNSNames) > 0 })
 	statuses := map[string]bool{}
 	var panics []ev.M
